@@ -121,7 +121,18 @@ func (e *Engine) initExt() {
 	pure([]string{"fmt.Printf", "fmt.Println", "fmt.Sprint", "fmt.Sprintln", "errors.Is", "errors.As"}, "no heap effect visible to the caller; result unconstrained")
 
 	// ---- strings ----
-	uf([]string{"strings.ToLower", "strings.ToUpper", "strings.TrimSpace", "strings.TrimPrefix", "strings.TrimSuffix", "strings.ReplaceAll", "strings.LastIndex", "strings.Index", "strings.EqualFold", "strings.Replace", "strings.Title"},
+	litUF := func(name string, fn func(string) string) {
+		e.reg(name, name+": pure; evaluated with the real implementation on literal arguments, uninterpreted otherwise", func(f *Frame, st *State, c *ssa.CallCommon, args []Val, rt types.Type, pos token.Pos) Val {
+			ufn := "uf|" + name + "|0"
+			f.vc.declareFun(ufn, []*Sort{SStr}, SStr)
+			f.vc.litFuncs[ufn] = fn
+			return scalar(rt, mk(SStr, sym(ufn), args[0].one()))
+		})
+	}
+	litUF("strings.ToLower", strings.ToLower)
+	litUF("strings.ToUpper", strings.ToUpper)
+	litUF("strings.TrimSpace", strings.TrimSpace)
+	uf([]string{"strings.TrimPrefix", "strings.TrimSuffix", "strings.ReplaceAll", "strings.LastIndex", "strings.Index", "strings.EqualFold", "strings.Replace", "strings.Title"},
 		"pure function of its arguments (uninterpreted)")
 	e.reg("strings.HasPrefix", "strings.HasPrefix(s,p) == str.prefixof p s", func(f *Frame, st *State, c *ssa.CallCommon, args []Val, rt types.Type, pos token.Pos) Val {
 		return scalar(rt, mk(SBool, "str.prefixof", args[1].one(), args[0].one()))
